@@ -209,6 +209,8 @@ def render_cmd(c):
 
 
 def finish(pid, tier, seed, level, stages, t0, rule, assumptions, nontrivial=None, extra=None):
+    import shutil
+    shutil.rmtree(os.path.join(common.outdir(pid), "replay"), ignore_errors=True)
     known = [f for f in common.load_known() if f.get("property") == pid and f.get("status") == "open"]
     violations = []
     known_hit = {}
@@ -303,7 +305,29 @@ def check_C01(tier, seed):
                   assumptions=ASSUME_SESS)
 
 
-CHECKS = {"C08": check_C08, "C01": check_C01}
+def mc_sess_check(pid, tier, seed, module, rule, extra_sessions=None, keep=None, timeout=3000, chunk=None,
+                  assumptions=None, cfg=None):
+    t0 = time.time()
+    st1, sess = tlc_sessions(pid, module, cfg or "%s_%s.cfg" % (os.path.splitext(module)[0], tier),
+                             timeout=timeout, keep=keep)
+    stages = [st1, validate_sessions(pid, "mc", sess, exhaustive=True, timeout=timeout, chunk=chunk)]
+    if extra_sessions:
+        for name, ss in extra_sessions:
+            stages.append(validate_sessions(pid, name, ss, timeout=timeout))
+    return finish(pid, tier, seed, "model_checking", stages, t0, rule=rule,
+                  assumptions=ASSUME_SESS + (assumptions or []))
+
+
+def check_C04(tier, seed):
+    return mc_sess_check("C04", tier, seed, "MC_C04.tla",
+        rule="TLC explores the state graph of the abstract machine (which has no compile cache) under edit "
+             "histories: a run stopped by STOP / END / an error inside a FOR inside a GOSUB, then insert, replace, "
+             "delete, bare number of an absent line, DELETE hit and miss, NEW, direct statements, intermediate RUN, "
+             "ending in RUN, RUN n, CONT, RETURN, NEXT, GOTO n; EditCancels and OnlyEditsEdit are checked as action "
+             "properties; every transition is a session executed by the real interpreter and validated")
+
+
+CHECKS = {"C08": check_C08, "C01": check_C01, "C04": check_C04}
 
 
 def check(pid, tier, seed):
